@@ -24,8 +24,11 @@ def csv_stream(rng, nfiles, streams, viol, samples):
         pool = radio if unit in U.ACT else names
         nn = rng.randint(1, 30 if not hp else 6)
         chosen = rng.sample(pool, nn)
+        cunit = "num"
         if hp:
-            cont = {c: float(f"{10 ** rng.uniform(6, 25):.6g}").hex() for c in chosen}
+            cunit = rng.choice(["num", "num", "mol", "g", "Bq"]) if all(c in radio for c in chosen) else rng.choice(["num", "num", "mol", "g"])
+            lo, hi = {"num": (-2, 25), "mol": (-20, 3), "g": (-18, 5), "Bq": (-5, 18)}[cunit]
+            cont = {c: float(f"{10 ** rng.uniform(lo, hi):.6g}").hex() for c in chosen}
         else:
             cont = {c: float(10 ** rng.uniform(-20, 28) if rng.random() < 0.93 else 0.0).hex() for c in chosen}
         enc = rng.choice(["utf-8", "utf-16", "latin-1", "utf-8-sig"])
@@ -34,7 +37,7 @@ def csv_stream(rng, nfiles, streams, viol, samples):
         if enc == "utf-8-sig" and rng.random() < 0.5:
             enc = "utf-8"
         wu = rng.random() < 0.5
-        rts.append({"cls": "InventoryHP" if hp else "Inventory", "contents": cont, "cunit": "num", "unit": unit,
+        rts.append({"cls": "InventoryHP" if hp else "Inventory", "contents": cont, "cunit": cunit, "unit": unit,
                     "delim": rng.choice([",", ";", "\t", "|"]), "enc": enc, "write_units": wu, "header": rng.random() < 0.5,
                     "wrong_units_arg": (rng.choice(["Ci", "kg", "num"]) if wu and rng.random() < 0.5 else None)})
     # hand-written files: precedence, ids, skip_rows, accumulation, equality to direct construction
